@@ -83,8 +83,7 @@ def inLoop (d : Dev) (l : Val) : List Val → Except Fault Bool
   | ev :: rest =>
     match ifaceEq d l ev with
     | .error f => .error f
-    | .ok true => .ok true
-    | .ok false => inLoop d l rest
+    | .ok b => if b then .ok true else inLoop d l rest
 
 def evalOp (d : Dev) (rx : RxEngine) (o : Op) (l r : Val) : Except Fault Val :=
   match o with
@@ -92,29 +91,31 @@ def evalOp (d : Dev) (rx : RxEngine) (o : Op) (l r : Val) : Except Fault Val :=
   | .eq =>
     match ifaceEq d l r with
     | .error f => .error f
-    | .ok true => .ok (.bool true)
-    | .ok false =>
-      match l with
-      | .int a => match r with
-        | .flt b => .ok (.bool (Flt.eq (d.toF a) b))
+    | .ok b =>
+      if b then .ok (.bool true)
+      else
+        match l with
+        | .int a => match r with
+          | .flt b => .ok (.bool (Flt.eq (d.toF a) b))
+          | _ => .ok (.bool false)
+        | .flt a => match r with
+          | .int b => .ok (.bool (Flt.eq a (d.toF b)))
+          | _ => .ok (.bool false)
         | _ => .ok (.bool false)
-      | .flt a => match r with
-        | .int b => .ok (.bool (Flt.eq a (d.toF b)))
-        | _ => .ok (.bool false)
-      | _ => .ok (.bool false)
   | .neq =>
     match ifaceEq d l r with
     | .error f => .error f
-    | .ok true => .ok (.bool false)
-    | .ok false =>
-      match l with
-      | .int a => match r with
-        | .flt b => .ok (.bool (!Flt.eq (d.toF a) b))
+    | .ok b =>
+      if b then .ok (.bool false)
+      else
+        match l with
+        | .int a => match r with
+          | .flt b => .ok (.bool (!Flt.eq (d.toF a) b))
+          | _ => .ok (.bool true)
+        | .flt a => match r with
+          | .int b => .ok (.bool (!Flt.eq a (d.toF b)))
+          | _ => .ok (.bool (!d.neqFlt))      -- `tr, ok := right.(int64); sstack[i] = ok && …`
         | _ => .ok (.bool true)
-      | .flt a => match r with
-        | .int b => .ok (.bool (!Flt.eq a (d.toF b)))
-        | _ => .ok (.bool (!d.neqFlt))      -- `tr, ok := right.(int64); sstack[i] = ok && …`
-      | _ => .ok (.bool true)
   | .lt => .ok (ordering d (fun a b => decide (a < b)) Flt.lt bytesLt l r)
   | .gt => .ok (ordering d (fun a b => decide (b < a)) (fun a b => Flt.lt b a) (fun a b => bytesLt b a) l r)
   | .lte => .ok (ordering d (fun a b => decide (a ≤ b)) Flt.le (fun a b => !bytesLt b a) l r)
